@@ -171,6 +171,9 @@ let () =
        if line = "" then ()
        else if line = "(reset)" then begin
          st := init_state;
+         (match Sys.getenv_opt "MSI_PROFILE" with
+          | Some "release" -> let st', _ = dispatch !st (parse_line "(profile release)") in st := st'
+          | _ -> ());
          Buffer.add_string out "(reset)\n"
        end else begin
          let c = parse_line line in
